@@ -35,10 +35,41 @@ def biguintLine (line : String) : String :=
   | ["factorial", a] => u1 (fun x => one x.factorial) a
   | ["is_zero", a] => u1 (fun x => "ok S" ++ (if x.isZero then "1" else "0")) a
   | ["try_as_usize", a] => u1 (fun x => showR (fun n => s!"S{n}") x.tryAsUsize) a
+  | ["is_even", a] => u1 (fun x => showR (fun b => if b then "S1" else "S0") x.isEven) a
   | ["fibonacci", n] => match n.toNat? with
     | some k => one (.ok (BigUint.fibonacci k)) | none => "bad-op"
   -- specification side: the value as a plain natural number
   | ["val", a] => u1 (fun x => s!"{x.val}") a
+  | _ => "bad-op"
+
+def bigratLine (line : String) : String :=
+  let ws := line.trimAscii.toString.splitOn " "
+  let q2 (f : BigRat → BigRat → String) (a b : String) := match parseRat a, parseRat b with
+    | some x, some y => f x y | _, _ => "bad-op"
+  let q1 (f : BigRat → String) (a : String) := match parseRat a with
+    | some x => f x | none => "bad-op"
+  let one := fun (r : R BigRat) => showR showRat r
+  let ex := fun (r : R (BigRat × Bool)) => showR (fun (v, e) => showRat v ++ (if e then " exact" else " approx")) r
+  match ws with
+  | ["add", a, b] => q2 (fun x y => one (x.add y)) a b
+  | ["sub", a, b] => q2 (fun x y => one (x.sub y)) a b
+  | ["mul", a, b] => q2 (fun x y => one (.ok (x.mul y))) a b
+  | ["div", a, b] => q2 (fun x y => one (x.div y)) a b
+  | ["pow", a, b] => q2 (fun x y => ex (BigRat.powTop x y)) a b
+  | ["root_n", a, b] => q2 (fun x y => ex (BigRat.rootN (BigRat.pow 3) x y)) a b
+  | ["modulo", a, b] => q2 (fun x y => one (x.modulo y)) a b
+  | ["combination", a, b] => q2 (fun x y => one (x.combination y)) a b
+  | ["permutation", a, b] => q2 (fun x y => one (x.permutation y)) a b
+  | ["and", a, b] => q2 (fun x y => one (BigRat.bitwise "and" x y)) a b
+  | ["or", a, b] => q2 (fun x y => one (BigRat.bitwise "or" x y)) a b
+  | ["xor", a, b] => q2 (fun x y => one (BigRat.bitwise "xor" x y)) a b
+  | ["shl", a, b] => q2 (fun x y => one (BigRat.bitwise "shl" x y)) a b
+  | ["shr", a, b] => q2 (fun x y => one (BigRat.bitwise "shr" x y)) a b
+  | ["cmp", a, b] => q2 (fun x y => match x.cmp y with | some o => "ok " ++ showOrd o | none => "err panic") a b
+  | ["neg", a] => q1 (fun x => one (.ok x.negate)) a
+  | ["simplify", a] => q1 (fun x => one x.simplify) a
+  | ["factorial", a] => q1 (fun x => one x.factorial) a
+  | ["try_as_usize", a] => q1 (fun x => showR (fun n => s!"{n}") x.tryAsUsize) a
   | _ => "bad-op"
 
 /-- code points as space-separated lower-case hex; the empty line is the empty text -/
@@ -98,6 +129,7 @@ def main (args : List String) : IO UInt32 := do
   let stdout ← IO.getStdout
   match args with
   | ["biguint"] => loop stdin stdout biguintLine; return 0
+  | ["bigrat"] => loop stdin stdout bigratLine; return 0
   | ["json"] => loop stdin stdout jsonLine; return 0
   | ["jsondec"] => loop stdin stdout jsonDecLine; return 0
   | ["inline"] => loop stdin stdout inlineLine; return 0
